@@ -99,6 +99,24 @@ Theorem C08_explicit_namespace_version :
 Proof. exact P_C08_explicit_namespace_version. Qed.
 Print Assumptions C08_explicit_namespace_version.
 
+(* FIXED in /repo by commit 8fc7b57.  The validators take a bool where an int
+   is declared; the printer used str(), so the value with line number 1 held by
+   True - a value of the domain (wf_q) - printed ';lines=True', a text outside
+   the language that from_string rejects.  The printer of today ("%d": the
+   decimal of the value, print_q) writes ';lines=1', which parses back; on
+   numbers that are not bools the old printer and today's agree. *)
+Theorem C08_bool_print_refuted_old :
+  wf_q 4300 bool_line_witness /\
+  print_q_str_old 4300 true false bool_line_witness = Ok (zero_id ++ bs ";lines=True") /\
+  lang_q (zero_id ++ bs ";lines=True") = false /\
+  parse_q 4300 (zero_id ++ bs ";lines=True") = Err EValidation /\
+  print_q 4300 bool_line_witness = Ok (zero_id ++ bs ";lines=1") /\
+  parse_q 4300 (zero_id ++ bs ";lines=1") = Ok bool_line_witness /\
+  print_q_str_old 4300 false false bool_line_witness = print_q 4300 bool_line_witness /\
+  print_q_str_old 4300 false false ex_q = print_q 4300 ex_q.
+Proof. exact P_C08_bool_print_refuted_old. Qed.
+Print Assumptions C08_bool_print_refuted_old.
+
 (* KNOWN FINDING int-max-str-digits: without the digit hypothesis the round
    trip fails - with the limit at 3 digits the value with line number 1000
    cannot be printed (ValueError), with the limit at 4 it round-trips.  On
